@@ -9,7 +9,9 @@ Hand transcription (tie H), branch by branch, of
 * `CUResourceImpl.ReserveResourceForWG` = `withinSGPRLimitation` → `withinLDSLimitation` →
   `matchWfWithSIMDs` (persistent `nextSIMD`, the do-while over SIMDs, `wfPoolEntryUsed`) →
   `reserveResources` / `clearTempReservation`;
-* `CUResourceImpl.FreeResourcesForWG`.
+* `CUResourceImpl.FreeResourcesForWG`;
+* `CUResourceImpl.fitsWhenEmpty` / `wfPoolSizes` (repair 91eb1bb3; `CUResourcePoolImpl.CheckWGFitsInACU`
+  is `launchFits` in `C09_Disp.lean`): `fitsEmpty`, `CU.poolSizes`, the predicate `Fits`.
 Statuses are `Nat`s: 0 free, 1 to-reserve, 2 reserved, 3 used. Work-groups (Go: `*kernels.WorkGroup`
 pointers, the keys of `reservedWGs`) are `Nat` keys. Sizes are `Nat` (Go `int`; far below 2^31). -/
 namespace C09
@@ -241,6 +243,68 @@ def shippedWf : List Nat := [10, 10, 10, 10]
 def shippedSRegs : Nat := 3200
 def shippedVRegs : List Nat := [16384, 16384, 16384, 16384]
 def shippedLDS : Nat := 65536
+
+/-! ## `fitsWhenEmpty` / `CheckWGFitsInACU`: can the work-group be placed on the CU when nothing else occupies it? -/
+
+/-- shape of a mask: `some length` for a limited mask (`count / granularity` cells), `none` for an unlimited one -/
+def Mask.shape : Mask → Option Nat
+  | .lim m => some m.length
+  | .unl _ => none
+
+/-- a request of `a` units fits a mask of the given shape (`none` = unlimited: Go `count < 0`) -/
+def fitsUnits (sh : Option Nat) (a : Nat) : Prop :=
+  match sh with
+  | none => True
+  | some n => a ≤ n
+
+instance (sh : Option Nat) (a : Nat) : Decidable (fitsUnits sh a) := by
+  unfold fitsUnits; cases sh <;> infer_instance
+
+/-- wavefronts an empty SIMD can take: its pool entries, and as many VGPR regions as fit its file
+    (`vgprSlots = vregCounts[i] / granularity / 64 / vgprUnits` unless the file is unlimited or no VGPR is asked for) -/
+def slotsOn (cap : Nat) (sh : Option Nat) (req : Nat) : Nat :=
+  match sh with
+  | none => cap
+  | some n => if req = 0 then cap else min cap (n / req)
+
+/-- `f 0 + … + f (n-1)` -/
+def slotSum (f : Nat → Nat) : Nat → Nat
+  | 0 => 0
+  | n+1 => slotSum f n + f n
+
+/-- shapes of the masks of a CU: SGPR units, VGPR units per SIMD, LDS units (`none` = unlimited) -/
+def CU.shapes (cu : CU) : Option Nat × List (Option Nat) × Option Nat :=
+  (cu.smask.shape, cu.vmasks.map Mask.shape, cu.lmask.shape)
+
+/-- **the fit predicate**: `cap` = wavefront slots per SIMD, `sh` = mask shapes in units.
+    * SGPR: `nwf · ⌈s/16⌉ ≤` SGPR units;
+    * LDS: `⌈l/256⌉ ≤` LDS units;
+    * wavefronts: `nwf ≤ Σ_SIMD min(slots, ⌊VGPR units / ⌈v/4⌉⌋)` (`slots` when `v = 0` or unlimited). -/
+def Fits (cap : List Nat) (sh : Option Nat × List (Option Nat) × Option Nat) (d : Dem) : Prop :=
+  fitsUnits sh.1 (d.nwf * units d.s sGran) ∧ fitsUnits sh.2.2 (units d.l lGran) ∧
+  d.nwf ≤ slotSum (fun k => slotsOn (cap.getD k 0) (sh.2.1.getD k none) (units d.v vGran)) cap.length
+
+instance (cap : List Nat) (sh : Option Nat × List (Option Nat) × Option Nat) (d : Dem) :
+    Decidable (Fits cap sh d) := by unfold Fits; infer_instance
+
+/-- number of resident wavefronts on SIMD k -/
+def residentOn (cu : CU) (k : Nat) : Nat :=
+  (cu.resident.flatMap fun e => e.2.2.filter (·.simd = k)).length
+
+/-- `wfPoolSizes`: how many wavefronts each pool holds when the CU is empty. Go keeps a copy of the
+    `WfPoolSizes()` the CU was registered with (`r.wfPoolSizes`, made in `RegisterCU`); the model has no
+    such field and recomputes it from the state: the free entries plus one per location of the reserved
+    work-groups, whatever is resident now. The two agree on every CU that satisfies the resource
+    invariant (`poolSizes_of_inv`, `MgpuProofs/C09Rej.lean`: free slots + resident wavefronts = registered
+    size is a clause of `Inv`), i.e. in every reachable state; the correspondence check compares them on
+    every launch of every scenario. -/
+def CU.poolSizes (cu : CU) : List Nat :=
+  (List.range cu.wfFree.length).map fun k => cu.wfFree.getD k 0 + residentOn cu k
+
+/-- `fitsWhenEmpty`: the three checks of the Go function are the three conjuncts of `Fits` on the
+    empty-pool sizes (the Go loop subtracts `slots` per SIMD from `numWf` and stops early once it is
+    `≤ 0`; the result `numWf ≤ 0` is `nwf ≤ Σ slots`) -/
+def fitsEmpty (cu : CU) (d : Dem) : Bool := decide (Fits cu.poolSizes cu.shapes d)
 
 /-! ## reserve/free sequences -/
 
